@@ -190,14 +190,17 @@ _KEEP_CALLS = {"list", "tuple", "Wires"}
 _INSENSITIVE = {"len", "max", "min", "sum", "any", "all", "bool"}
 
 
-def _check_wireorder(ix, rep, m):
+def _check_wireorder(ix, rep, m, floor=5, param_sources=()):
     n_sources = 0
-    for f in [f for f in ix.funcs_in(m) if f.parent is None]:
+    for f in [f for f in ix.funcs_in(m) if f.parent is None or f.cls is not None]:
         fn = f.node
         par = _parents(fn)
         qs = {a.arg for a in fn.args.args if a.annotation is not None and norm(a.annotation).split(".")[-1] == "QuantumScript"}
+        psrc = {a.arg for a in fn.args.args + fn.args.kwonlyargs if a.arg in param_sources}
 
         def is_source(e):
+            if isinstance(e, ast.Name) and e.id in psrc and isinstance(e.ctx, ast.Load):
+                return True  # the `wires` argument of compute_decomposition & co. is the operator's wires
             return isinstance(e, ast.Attribute) and e.attr == "wires" and not (isinstance(e.value, ast.Name) and e.value.id in qs)
 
         tainted = set()
@@ -300,7 +303,59 @@ def _check_wireorder(ix, rep, m):
                 if n not in reordered_sources:
                     rep.proved(RW, f"{m.relpath}:{f.qualname} L{n.lineno} {norm(n)}", "reaches its uses without sorted/set/reversed/.sort()")
         rep.analysed(m.relpath, f.qualname)
-    rep.floor("reads of an operator's / measurement's .wires in pauli_tracker.py", n_sources, 5)
+    rep.floor(f"reads of an operator's / measurement's wires in {m.relpath}", n_sources, floor)
+
+
+def _check_output_order(ix, rep):
+    """the measurement that replaces the input's sample() lists its wires in the order the input measurement requested"""
+    f = ix.func(DEC, "convert_to_mbqc_formalism")
+    fn = f.node
+    rep.analysed(DEC, f.qualname)
+    defs = {}
+    for st in ast.walk(fn):
+        if isinstance(st, ast.Assign) and len(st.targets) == 1 and isinstance(st.targets[0], ast.Name):
+            defs.setdefault(st.targets[0].id, []).append(st.value)
+
+    def from_wires(e, depth=0):
+        """e evaluates to wires in the order of a measurement's / tape's .wires"""
+        if depth > 4:
+            return False
+        if isinstance(e, ast.Attribute) and e.attr == "wires":
+            return True
+        if isinstance(e, ast.IfExp):
+            return from_wires(e.body, depth + 1) and from_wires(e.orelse, depth + 1)
+        if isinstance(e, ast.Name) and e.id in defs:
+            return all(from_wires(d, depth + 1) for d in defs[e.id])
+        if isinstance(e, ast.Call) and isinstance(e.func, ast.Name) and e.func.id in _KEEP_CALLS and len(e.args) == 1:
+            return from_wires(e.args[0], depth + 1)
+        return False
+    n = 0
+    for call in [c for c in ast.walk(fn) if isinstance(c, ast.Call) and (norm(c.func).split(".")[-1] in ("sample", "SampleMP"))]:
+        for kw in call.keywords:
+            if kw.arg != "wires":
+                continue
+            n += 1
+            v = kw.value
+            exprs = [v] if not (isinstance(v, ast.Name) and v.id in defs) else defs[v.id]
+            where = f"{DEC}:convert_to_mbqc_formalism `{norm(call)[:50]}`"
+            for e in exprs:
+                if isinstance(e, (ast.ListComp, ast.GeneratorExp)) and len(e.generators) == 1:
+                    it = e.generators[0].iter
+                    if from_wires(it) and not e.generators[0].ifs:
+                        rep.proved(RW, where, f"output wires follow `{norm(it)}` element by element")
+                    elif isinstance(it, ast.Call) and isinstance(it.func, ast.Attribute) and it.func.attr in ("items", "keys", "values") or \
+                            (isinstance(it, ast.Call) and isinstance(it.func, ast.Name) and it.func.id in _REORDER_CALLS):
+                        rep.refuted(RW, DEC, "convert_to_mbqc_formalism", e,
+                                    f"the wires of the output sample() are collected by iterating `{norm(it)[:50]}`, i.e. in the order wires first appear in the "
+                                    "circuit, not in the order the input measurement lists them: for sample(wires=[1, 0]) the columns of the result are "
+                                    "exchanged", line=e.lineno)
+                    else:
+                        rep.unknown(RW, where, f"iteration source `{norm(it)[:50]}` not classified")
+                elif from_wires(e):
+                    rep.proved(RW, where, "the requested wires themselves")
+                else:
+                    rep.unknown(RW, where, f"`{norm(e)[:50]}` not classified")
+    rep.floor("output measurements of convert_to_mbqc_formalism", n, 1)
 
 
 def _negative_step(sl: ast.Slice):
@@ -321,7 +376,7 @@ def check(ctx):
     rep.rule(RR, "every mid-circuit measurement queued by ftqc/decomposition.py (measure, measure_x, measure_y, measure_arbitrary_basis called directly, "
              "or as partial(...) branches of cond_measure) carries the literal reset=True — on the call, on the partial, or on the cond_measure application — "
              "because the measured graph-state wire is released and recycled by the next gate")
-    rep.rule(RW, "in ftqc/pauli_tracker.py no value derived from an operator's (or measurement's) .wires that is used positionally (indexing, unpacking, "
+    rep.rule(RW, "in ftqc/pauli_tracker.py, ftqc/graph_state_preparation.py and ftqc/decomposition.py no value derived from an operator's (or measurement's) .wires that is used positionally (indexing, unpacking, "
              "enumerate/zip, building the xz list, call argument) passes through sorted/set/frozenset/reversed/[::-1]/.sort()/.reverse(): CNOT is not "
              "symmetric, the (control, target) order must reach _commute_cnot unchanged")
     rep.assume("graph-state conversion and the byproduct corrections per measurement history are runtime behaviour and are not analysed")
@@ -478,6 +533,9 @@ def check(ctx):
     rep.floor("entries of _CLIFFORD_GATES_SUPPORTED", n_sup, 3)
 
     _check_wireorder(ix, rep, m)
+    _check_output_order(ix, rep)
+    for rel_, fl_ in (("pennylane/ftqc/graph_state_preparation.py", 3), ("pennylane/ftqc/decomposition.py", 3)):
+        _check_wireorder(ix, rep, ix.module(rel_), floor=fl_, param_sources=("wires",))
     _check_reset(ix, rep)
     return rep
 
